@@ -15,6 +15,22 @@ CLAIMED = {
    note=TRUST + "Config.v is a hand-written model of config.py tied by running histories through model and real API in fresh interpreters.",
    technique="Coq proof by induction over API histories (invariant), generated option table, differential correspondence",
    ref="5/C10"),
+ "C06": dict(
+   text="Theorems over the namespace model (Scope.v), for EVERY stack of scopes / namespace / name: C06_origin_is_nearest_binder and "
+        "C06_nearest_binder_is_found - generate_nsp's search for the origin of a free/nonlocal name is Python's rule (nearest enclosing "
+        "function that binds it, classes skipped, a global declaration ends the search); C06_load_form / C06_store_form / "
+        "C06_walrus_value_form - what get_load_name / get_assign / get_load_assigned emit is the rendering of an access decision; "
+        "C06_global_load_is_module - a module variable is never captured by the lambda of an enclosing function; "
+        "C06_function_load_store_agree, C06_class_load_store_agree - loads and stores of a name in one namespace meet in one cell "
+        "(class: dictionary first, module next); C06_class_inner_never_member and C06_enclosing_load_follows_python - lambda / "
+        "comprehension bodies in a class body do not see members and follow Python's rule; C06_inner_binder_wins, "
+        "C06_walrus_in_lambda_is_local, C06_lambda_scope - parameters, comprehension targets and assignment expressions inside a "
+        "lambda are local to it. The hypotheses on CPython's symbol flags (sym_ok, maps_ok, dict_ok) are boolean checks evaluated by the "
+        "model on every explored symbol table. That the emitted accesses behave like the cells they denote when CPython runs the "
+        "converted program (closures of nested lambdas) is decided by the exhaustive/sampled scope-tree oracle on 3.10-3.13 (support).",
+   note=TRUST + "Scope.v's cells and name_cell are a model of CPython's closure semantics; the symbol flags are CPython's output (input data). Differences that CPython 3.12/3.13's comprehension inlining defect causes in the converted class body (UnboundLocalError for a free variable named like a comprehension target of the same lambda; plain def code shows it too) are attributed to the interpreter only when the same pair agrees on 3.11.",
+   technique="Coq proof (induction over scope stacks / ancestor chains, case analysis of the access decisions) over the namespace model + boolean hypothesis checks in the model + AST correspondence + exhaustive depth-2 / sampled depth-4 scope-tree differential execution on four interpreters",
+   ref="5/C06"),
  "C07": dict(
    text="Theorems over the whole-converter model with an event semantics of the emitted expression forms (EvalOrder.v): "
         "C07_assign_order - for every assignment with ANY number of name/attribute/subscript targets whose operand expressions the "
